@@ -25,6 +25,7 @@ MANIFEST = dict(
 
 def run(ctx):
     res, broken = vlib.proof_step(ctx, PROJ, "C01", genparams)
+    res, broken = cc.compose_step(ctx, "C01", res, broken)
     hbin, dbin = cc.build_tools()
     n = 2500 if ctx.tier == "quick" else 40000
     recs = cc.run_sharded(hbin, dbin, "fixed", ctx.seed, n)
